@@ -181,7 +181,11 @@ func genWrites(t *rapid.T, l Layout, now int64, k valueKind, nanPct int) []SlotW
 	for i := range order {
 		order[i] = i
 	}
-	if len(order) > 1 && rapid.Bool().Draw(t, "coarseLast") {
+	if len(order) > 2 && rapid.IntRange(0, 3).Draw(t, "fineThenCoarsest") == 0 {
+		// only the finest archive is written (so every level is the aggregate of the one below), then the
+		// coarsest archive alone is overwritten by name: consistent up to the last level, inconsistent there
+		order = []int{0, len(l.Archives) - 1}
+	} else if len(order) > 1 && rapid.Bool().Draw(t, "coarseLast") {
 		// finer archives first, coarser ones by name afterwards: coarser archives are then NOT the aggregate of the finer ones
 	} else if len(order) > 1 {
 		order = rapid.Permutation(order).Draw(t, "archOrder")
